@@ -508,3 +508,34 @@ Example stores_nonvacuous :
   [(None, RUnit); (Some 1, RUnit); (Some 2, RUnit); (None, RUnit); (None, RUnit); (Some 1, RUnit);
    (Some 2, REntries [([], [8])]); (Some 1, REntries [])].
 Proof. reflexivity. Qed.
+
+(* ---- a process killed outright ---- *)
+(* killed after every operation so far has been acknowledged (nothing of the next one has been written): the database
+   is what it was, and what the next process finds is what a clean reopening finds *)
+Lemma partial_zero r o : rocks_partial r 0 o = r.
+Proof.
+  unfold rocks_partial. destruct (agent_of o) as [[a n]|]; [|reflexivity].
+  destruct (mem_b a (open_agents r)); [|reflexivity].
+  destruct (bget (lane_name a n) (lane_ids r)); reflexivity.
+Qed.
+
+Theorem outright_kill_is_a_reopening r o : rocks_kill r 0 o = fst (rocks_step r Reopen).
+Proof. unfold rocks_kill. now rewrite partial_zero. Qed.
+
+Theorem outright_kill_loses_nothing r o :
+  let r' := rocks_kill r 0 o in
+  value_ks r' = value_ks r /\ map_ks r' = map_ks r /\ lane_ids r' = lane_ids r /\ lane_counter r' = lane_counter r.
+Proof. rewrite outright_kill_is_a_reopening. cbn. auto. Qed.
+
+(* a history in which the process is only ever killed outright leaves the database as the same history with clean
+   reopenings in place of the kills does *)
+Theorem outright_kills_are_reopenings hs : only_outright hs = true ->
+  forall r, hrun_state r hs = rocks_run_state r (map as_sop hs).
+Proof.
+  induction hs as [|h t IH]; intros H r; [reflexivity|].
+  cbn [only_outright forallb] in H. apply andb_true_iff in H as [Hh Ht].
+  cbn [hrun_state rocks_run_state map]. destruct h as [o|k o].
+  - cbn [rocks_hstep as_sop]. apply IH. exact Ht.
+  - destruct k as [|p]; [|discriminate]. destruct o; try discriminate.
+    cbn [rocks_hstep as_sop fst]. rewrite outright_kill_is_a_reopening. apply IH. exact Ht.
+Qed.
